@@ -463,8 +463,10 @@ func genOps(repo, out string) {
 }
 
 // resultTerm: the reply interpretation of an operation of the simplest shapes
-//   … ; err != nil { return <zero>, err } else { return reply.F, nil }
-//   … else { return &types.T{K: reply.F, …}, nil }        … else { return reply.F, reply.G, nil }
+//
+//	… ; err != nil { return <zero>, err } else { return reply.F, nil }
+//	… else { return &types.T{K: reply.F, …}, nil }        … else { return reply.F, reply.G, nil }
+//
 // as a Res term over the reply struct's values r (declaration order); "" when the statement has another shape
 // (early returns, locals, further branches: those operations stay hand-modelled)
 func (t *opTr) resultTerm(is *ast.IfStmt, replyVar, replyType string, structs map[string][]string) string {
@@ -546,9 +548,9 @@ func (t *opTr) resultTerm(is *ast.IfStmt, replyVar, replyType string, structs ma
 		}
 		return ""
 	}
-	sliceLen := map[string]int{}      // x := []types.T{types.T{}, …}: a local slice of n zero values
+	sliceLen := map[string]int{} // x := []types.T{types.T{}, …}: a local slice of n zero values
 	sliceType := map[string]string{}
-	elemField := map[string]string{}  // "x[i].F" → the term assigned to it
+	elemField := map[string]string{} // "x[i].F" → the term assigned to it
 	for _, st := range els.List[:len(els.List)-1] {
 		switch x := st.(type) {
 		case *ast.IfStmt:
@@ -870,7 +872,7 @@ func boolLitReturn(st ast.Stmt) (string, bool) {
 	return "", false
 }
 
-// boolFunc: `x := e` … `if c { return b } else if c' { return b' }` … `return b''` as a Lean term
+// boolFunc: `x := e` … `if c { return b } else if c' { return b' }` … `return b”` as a Lean term
 func boolFunc(file string, fn *ast.FuncDecl) string {
 	if fn == nil || fn.Type.Params == nil || len(fn.Type.Params.List) != 1 || len(fn.Type.Params.List[0].Names) != 1 || src(fn.Type.Params.List[0].Type) != "uint32" {
 		return "unsupported_helper_signature"
